@@ -287,9 +287,15 @@ func (e *Env) ident(name string) TV {
 		}
 	}
 	if !e.callee {
-		// phi nodes / named locals of the function under verification
-		if tv, ok := g.localByName(name, e.loop); ok {
-			return tv
+		for _, fv := range g.fn.FreeVars {
+			if fv.Name() == name {
+				et := deref(fv.Type())
+				p := g.placeOfRef(g.val(fv), et)
+				if p.Struct || isAggregate(et) {
+					return TV{g.val(fv), atRefSort, et}
+				}
+				return TV{g.load(e.cur, p), g.u.SortOf(et), et}
+			}
 		}
 		// address-taken local (captured by a closure): read its cell
 		for _, b := range g.fn.Blocks {
@@ -305,15 +311,9 @@ func (e *Env) ident(name string) TV {
 				}
 			}
 		}
-		for _, fv := range g.fn.FreeVars {
-			if fv.Name() == name {
-				et := deref(fv.Type())
-				p := g.placeOfRef(g.val(fv), et)
-				if p.Struct || isAggregate(et) {
-					return TV{g.val(fv), atRefSort, et}
-				}
-				return TV{g.load(e.cur, p), g.u.SortOf(et), et}
-			}
+		// phi nodes / named locals of the function under verification
+		if tv, ok := g.localByName(name, e.loop); ok {
+			return tv
 		}
 	}
 	if srt, ok := g.prog.Specs.Ghosts[name]; ok {
